@@ -127,7 +127,8 @@ def extra_tie(pid, cfg, exe, chk, cases, seed, violations, broken, res):
     import props as P
     impl, model, crashes, drvfail = chk.run_cases(exe, cases, cfg['sections'], seed)
     for cid, why, lines in crashes:
-        violations.append({'kind': 'crash', 'what': f'process {why} while handling this input', 'case': chk.case_text(lines), 'concrete': True})
+        if cfg.get('crash_is_violation'):
+            violations.append({'kind': 'crash', 'what': f'process {why} while handling this input', 'case': chk.case_text(lines), 'concrete': True})
     n = 0
     for cid, il in impl.items():
         ml = model.get(cid)
@@ -149,7 +150,10 @@ def extra_tie(pid, cfg, exe, chk, cases, seed, violations, broken, res):
                 violations.append({'kind': 'observable-disagreement', 'concrete': True,
                                    'what': 'implementation output differs from the proven model on the property\'s observable projection',
                                    'case': info, 'impl': repr(a)[:600], 'model': repr(b)[:600]})
+        both_ok = P.res_kind(P.res_line(il)) == 'ok' and P.res_kind(P.res_line(ml)) == 'ok'
         for tags in cfg.get('internal', ()):
+            if tags not in ('RES', 'TKRES', 'TK') and not both_ok:
+                continue
             a = [l for l in il if l.startswith(tags + ' ') or l == tags]
             b = [l for l in ml if l.startswith(tags + ' ') or l == tags]
             if a != b:
@@ -176,7 +180,10 @@ def sp_verdict(cmd, gens_quick, gens_thorough, kind, also=None):
         ok, fails, crashes = run_verdicts(exe, cmd, seed, cases)
         add_fails(violations, fails, kind)
         for c in crashes:
-            violations.append({'kind': 'crash', 'what': f'roxh {cmd} died: {c}', 'concrete': True, 'case': {}})
+            if cfg.get('crash_is_violation'):
+                violations.append({'kind': 'crash', 'what': f'roxh {cmd} died: {c}', 'concrete': True, 'case': {}})
+            else:
+                notes.append(f'roxh {cmd} died on some input ({c}); a C01/C10 matter')
         res = {'evaluations': ok + len(fails), 'extra_distinct': ok, 'oracle_failures': len(fails),
                'samples': [{'oracle': cmd, 'verdicts_ok': ok, 'verdicts_fail': len(fails)}]}
         if also:
